@@ -10,3 +10,5 @@ RULES = {"C17.a"}
 
 def check(ctx):
     casts.analyze(ctx, RULES)
+    from .common import cache_foundation
+    cache_foundation(ctx)
